@@ -106,6 +106,16 @@ def read_policy_from_file(path):
         if sections <= policy_sections:
             parsed_policies = dict()
 
+            # A section that is present must be a JSON object. (Falsy values
+            # of other types, e.g. null, 0, false, "" or [], used to skip the
+            # checks below and were accepted as an empty policy.)
+            for section in sections:
+                if not isinstance(object_policy.get(section), dict):
+                    raise ValueError(
+                        "The {} section of policy '{}' must be a JSON "
+                        "object.".format(section, name)
+                    )
+
             default_policy = object_policy.get('preset')
             if default_policy:
                 parsed_policies['preset'] = parse_policy(default_policy)
